@@ -16,9 +16,12 @@ PROP = dict(
             "types.Currency Add/Sub/Mul64 panic exactly on 128-bit overflow/underflow; uint64 addition wraps",
             "handler-level cases: chain, wallet, syncer, contract manager and settings are stubs behind the handlers' interfaces (fixed height / hard-fork height, no funding, arguments of AddContract/RenewContract recorded); signature checks are exercised with real keys",
             "contractUnlockConditions(hostKey, renterKey).UnlockHash() and addresses represented by small integer ids",
+            "in-flight changes: the stub chain manager's tip is advanced (and the stub settings are replaced) by the harness between the arrival of the RPC id and the delivery of the request body (the in-memory transport holds the body back until the host is blocked reading it) and between the host's answer and the renter's signatures",
         ],
         level_text="for ALL candidate contracts, existing revisions, heights and settings the Lean model of validateContractFormation, RHP2/RHP3 validateContractRenewal and of the handler paths rpcFormContract / rpcRenewAndClearContract / handleRPCRenew (hard-fork guard, clearing revision, base cost arithmetic with panicking Mul64/Add, validator, recorded figures) is proved to accept only contracts satisfying every clause of the property and to record exactly the closed forms (locked, risked, usage); window clauses under the configuration hypothesis height+maxDuration+windowSize < 2^64 (uint64 wrap modelled, witness shows it is needed); no_panic proved for the formation validator and for the repaired variant, negated with replayed witnesses for the current renewal arithmetic; tied to the code by seeded perturbation cases run on the real validators and through the real RPC handlers",
         level_note="trusted: Lean kernel (+propext, Quot.sound, Classical.choice), core's Currency arithmetic, stub managers behind the RPC handlers, harness canonicalisation",
-        assumptions=["configuration hypothesis: height + maxDuration + windowSize < 2^64 (otherwise the code's uint64 additions wrap; modelled, see formation_wrap_witness)",
+        assumptions=["'current height' for RHP2 formation / renewal = the chain tip when the host validates the request (after the request body has been read): rpcForm2_uses_current_height, rpcRenew2_uses_current_height; blocks connecting later (before the renter's signatures) do not matter",
+                     "settings are ONE snapshot per RPC, taken when the handler starts (RHP2) / the price table the renter pays with (RHP3, including its HostBlockHeight: by design the RHP3 window is measured from the height the table was issued at, rpcRenew3_pricetable_height_witness); a settings update while a request is in flight is honoured from the next RPC on",
+                     "configuration hypothesis: height + maxDuration + windowSize < 2^64 (otherwise the code's uint64 additions wrap; modelled, see formation_wrap_witness)",
                      "closed forms as coded: RHP2 base revenue = contractPrice + StoragePrice*filesize*extension (storage revenue recorded without the contract price), RHP3 base revenue = RenewContractCost + WriteStoreCost*filesize*extension (recorded as storage revenue), risked = (validHost - missedHost) -. base revenue"],
     )
